@@ -376,4 +376,7 @@ add("C36", "normalised residual operator remembered on the likelihood", "nifty/c
 add("C36", "prefix operators zipped with all summands", "nifty/cl/operators/energy_operators.py", "                                for pp, oo in zip(prep, data_ops)))", "                                for pp, oo in zip(prep, ops)))", "R36.8")
 add("C31", "flat grid re-derives level shapes by a running product", "nifty/re/multi_grid/grid.py", "                shapes.append(atlvl.shape)", "                shapes.append(tuple(np.asarray(self.grid.shape0) * 2**lvl))", "R31.8")
 add("C31", "log-grid volume in Jacobian form", "nifty/re/multi_grid/grid_impl.py", "        return jnp.prod(coords[1] - coords[0], axis=0, keepdims=True)", "        return jnp.prod(self.index2coord(index) * self.coord_scale * super().index2volume(index), axis=0, keepdims=True)", "R31.9")
+add("C35", "interpolation order not handed to the integrator", "nifty/re/extra/sampling_los.py", "            order=interpolation_order,\n", "", "R35.8")
+add("C35", "truncated ray end computed but not used", "nifty/cl/library/los_response.py", "        pixel_ends = real_ends/dist + 0.5", "        pixel_ends = ends/dist + 0.5", "R35.9")
+add("C35", "single line of sight mapped over its coordinates", "nifty/re/extra/sampling_los.py", "        if self.start.ndim == 1 and self.end.ndim == 1:\n            # A single line of sight: nothing to map over\n            return self._los(x, self.start, self.end)\n", "", "R35.11")
 VARIANTS = V
